@@ -300,8 +300,17 @@ def proj(pid, op, core):
         return core if pid == "C18" else None
     if kind == "find":
         return core if pid == "C19" else None
-    if kind in ("redb", "cmp"):
-        return core if pid == "C20" else None
+    if kind in ("redb", "cmp", "redbraw"):
+        if pid == "C20":
+            return core
+        if kind == "redb" and op.split()[1] == "tx" and pid in ("C10", "C16"):
+            # a transaction rebuilt from its stored bytes is a transaction too: its txid / preimage / weight
+            m = re.search(r"obj=\((.*)\) fw=", core)
+            obj = m.group(1) if m else None
+            if pid == "C10":
+                return (field(obj, "txid"), field(obj, "pre")) if obj else core
+            return field(obj, "w") if obj else core
+        return None
     if kind == "cnew":
         return None
     if kind == "cins":
@@ -351,8 +360,8 @@ def oracle_fails(pid, op, orc, op_core=None):
     elif pid == "C02":
         if bad("part"):
             out.append("part=" + orc["part"])
-        if bad("self") and "suffix" in orc["self"]:
-            out.append("self=" + orc["self"])
+        if bad("indep"):
+            out.append("indep=" + orc["indep"])
     elif pid == "C03":
         v = bad("rb")
         if v and re.search(r"consumed|accept|fields|script-bytes|count|all_empty|reserialize|length-arith|accessors", v):
@@ -388,7 +397,7 @@ def oracle_fails(pid, op, orc, op_core=None):
             out.append("rb=" + v)
     elif pid == "C15":
         v = bad("self")
-        if v and "suffix" not in v:
+        if v:
             out.append("self=" + v)
     elif pid == "C16":
         v = bad("rb")
@@ -414,7 +423,7 @@ def oracle_fails(pid, op, orc, op_core=None):
     elif pid in ("C06", "C11", "C12", "C13"):
         v = bad("clog")
         if v:
-            tags = [t for t in v[5:].split(",") if t.startswith(pid) or (pid == "C06" and t.startswith(("panic", "get-panics")))]
+            tags = [t for t in v[5:].split(",") if t.startswith(pid)]
             if tags:
                 out.append("clog=" + ",".join(tags))
     return out
